@@ -145,8 +145,18 @@ fn generate_e(seed: u64, quick: bool) -> Value {
             items.push(item);
             continue;
         }
-        let c = g.rng.upto(9);
+        let c = g.rng.upto(10);
         match c {
+            9 => {
+                if !g.rng.chance(1, 4) {
+                    count -= 1;
+                    continue;
+                }
+                // a long definition: the file grows past the reader's and the pipe's buffer sizes
+                let n = *g.rng.pick(&[3000usize, 8150, 8192, 20000, 70000]);
+                let filler: String = (0..n).map(|i| (b'a' + (i % 23) as u8) as char).collect();
+                items.push(json!({"forms": [format!("(define filler{} \"{}\")", count, filler)], "markers": [], "kind": "long-definition"}));
+            }
             8 => {
                 if !g.rng.chance(1, 3) {
                     count -= 1;
@@ -402,7 +412,7 @@ fn execute_e(case: Value) -> RunResult {
         case["seed"], hash_seed, case["cwd"], given, case["crlf"], case["final_newline"], file_fault
     )));
     // ---- the real binary
-    let child = run_cli(&cwd, hash_seed, &[given.clone()], Duration::from_secs(20));
+    let child = run_cli(&cwd, hash_seed, &[given.clone()], Duration::from_secs(90));
     let child = match child {
         Ok(c) => c,
         Err(e) => {
